@@ -106,6 +106,26 @@ theorem writers_exact (F : Flow S) (ρ : Rank F.n) (hT : Topo F ρ) (hR : TopoR 
         (evalAt F t σ0 (denSeq F ρ t due F.n 0 σ0 [] []).1 i).2 = true) :=
   (denSeq_sol F ρ hT hR hF t σ0 due).wr i hi
 
+/-- **with the latest values**: the state a node that runs ends the cycle with is its user code applied to the
+    states its producers — active and passive — END this cycle with (every producer's latest write, this cycle's
+    included: producers come first) and to its own previous state; a node that does not run keeps its state -/
+theorem runs_with_latest_values (F : Flow S) (ρ : Rank F.n) (hT : Topo F ρ) (hR : TopoR F ρ) (hS : SelfFuture F) (hF : Frame F)
+    (fx : Bool) (t : Time) (g : G) (σ0 : Nat → S) (hlen : g.slots.length = F.n) (hc : g.cursor = 0) (i : Nat) (hi : i < F.n) :
+    (ρ.posOf i ∈ (cycle fx (beh F ρ) F.n t g σ0).evaluated →
+      (cycle fx (beh F ρ) F.n t g σ0).st i = (F.f i (upd (cycle fx (beh F ρ) F.n t g σ0).st i (σ0 i)) t).1) ∧
+    (ρ.posOf i ∉ (cycle fx (beh F ρ) F.n t g σ0).evaluated → (cycle fx (beh F ρ) F.n t g σ0).st i = σ0 i) := by
+  have hact := activation_exact F ρ hT hS fx t g σ0 hlen hc i hi
+  have hsol := denSeq_sol F ρ hT hR hF t σ0 (dueN F ρ g t)
+  have hfires : fires F (dueN F ρ g t) (denSeq F ρ t (dueN F ρ g t) F.n 0 σ0 [] []).2.1 i ↔
+      (slotOf g (ρ.posOf i) = t ∨ ∃ p ∈ F.prods i, p ∈ (denSeq F ρ t (dueN F ρ g t) F.n 0 σ0 [] []).2.1) := by
+    unfold fires dueN; simp [hi]
+  rw [cycle_st F ρ hT hS fx t g σ0 hlen hc]
+  constructor
+  · intro hev
+    exact hsol.st_fire i hi (hfires.mpr (hact.mp hev))
+  · intro hev
+    exact hsol.st_idle i hi (fun hf => hev (hact.mpr (hfires.mp hf)))
+
 /-! non-vacuity: in `exG` node 3 reads node 0 passively; a cycle in which only node 0 is due evaluates 0, 1, 2 and —
     through its ACTIVE producers 1 and 2 — node 3 -/
 example : (cycle true (beh exG exR1) 4 5 { slots := [5, 0, 0, 0] } (fun _ => 1)).evaluated = [0, 1, 2, 3] := by decide
